@@ -54,7 +54,7 @@ def snapshot(root, ids=True):
     return order
 
 
-def build_zoo(frozen=False):
+def build_zoo(frozen=False, hooks=True):
     from typing import Any, Dict, List, Optional, Set, Tuple, Union
 
     try:
@@ -130,10 +130,22 @@ def build_zoo(frozen=False):
         vals: List[int] = [1]
 
     @spec_class
+    class Rev:                    # a copy hook that changes state (of the COPY)
+        rev: int = 0
+        log: List[str] = []
+        inner: Optional[Scal] = None
+
+        if hooks:                 # (a hook assigning attributes of a frozen copy raises by design)
+            def __post_copy__(self):
+                self.rev += 1
+                self.log = self.log + ["copied"]
+
+    @spec_class
     class Holder:
         child: Scal = None
         kids: List[Scal] = []
         by_name: Dict[str, Scal] = {}
+        revs: List[Rev] = []
         weights: Dict[str, int] = {}
         items: KeyedList[Item, str] = Attr(default_factory=KeyedList)
         marks: KeyedSet[Item, str] = Attr(default_factory=KeyedSet)
@@ -161,7 +173,9 @@ def build_zoo(frozen=False):
         if cls is Holder:
             return Holder(child=Scal(n=2), kids=[Scal(n=3), ScalMid()], by_name={"a": Scal(n=4)},
                           items=[Item("a", v=1), Item("b", v=2)], marks=[Item("m", v=1)], anything=[1, [2]],
-                          weights={"a": 1, "b": 2})
+                          weights={"a": 1, "b": 2}, revs=[Rev(rev=1)])
+        if cls is Rev:
+            return Rev(rev=1, log=["x"], inner=Scal(n=5))
         if cls is RegChild:
             return RegChild(count=1, vals=[1, 2], entries=[5])
         if cls is Both:
@@ -170,10 +184,10 @@ def build_zoo(frozen=False):
             return Other(nums={1})
         return cls()
 
-    classes = [Scal, ScalMid, ScalLeaf, Other, Both, RegChild, Holder, Item]
+    classes = [Scal, ScalMid, ScalLeaf, Other, Both, RegChild, Holder, Item, Rev]
     pool = lambda: [0, 1, -1, 2.5, True, None, "x", "y", "zz", "", (1, "a"), (1, 2), [], [1], [1.5], ["s"], {}, {"a": 1},
                     {1}, set(), {"a": 5, "b": -1}, {"c": 3}, Flaky(), Scal(n=9), ScalMid(), Item("a", v=5), Item("q", v=-1), Item("z"), Other(),
-                    [Scal(n=8)], {"k": Scal(n=6)}, [Item("c", v=3), Item("d", v=-1)],
+                    [Scal(n=8)], {"k": Scal(n=6)}, Rev(rev=3), [Rev()], [Item("c", v=3), Item("d", v=-1)],
                     KeyedList[Item, str]([Item("e", v=1), Item("f", v=-1)]), KeyedSet[Item, str]([Item("g")]),
                     lambda v: v, lambda v: 1 / 0]
     return classes, make, pool, Item
@@ -309,8 +323,8 @@ def explore_frozen(chk, extra):
         and have the twin's outcome: same exception class, or a result with the same content
         and sharing structure (class names, attribute names, values)."""
     import random
-    zf = build_zoo(frozen=True)
-    zt = build_zoo(frozen=False)
+    zf = build_zoo(frozen=True, hooks=False)
+    zt = build_zoo(frozen=False, hooks=False)
     rng = chk.rng
     n = 1500 if chk.tier == "quick" else 25000
     tried = raised = 0
